@@ -370,16 +370,27 @@ class SymbolTable(OpTrait):
             raise ValueError(f"Operation {op} has no SymbolTable ancestor")
         if isinstance(name, str | StringAttr):
             name = SymbolRefAttr(name)
-        for o in anchor.regions[0].block.ops:
-            if (
-                sym_interface := o.get_trait(SymbolOpInterface)
-            ) is not None and sym_interface.get_sym_attr_name(o) == name.root_reference:
-                if not name.nested_references:
+
+        def lookup_in(table: Operation, ref: StringAttr) -> Operation | None:
+            for o in table.regions[0].block.ops:
+                if (
+                    sym_interface := o.get_trait(SymbolOpInterface)
+                ) is not None and sym_interface.get_sym_attr_name(o) == ref:
                     return o
-                nested_root, *nested_references = name.nested_references.data
-                nested_name = SymbolRefAttr(nested_root, nested_references)
-                return SymbolTable.lookup_symbol(o, nested_name)
-        return None
+            return None
+
+        symbol = lookup_in(anchor, name.root_reference)
+        for nested_reference in name.nested_references.data:
+            # Nested references are resolved in the symbol table they name
+            if symbol is None or not symbol.has_trait(SymbolTable):
+                return None
+            symbol = lookup_in(symbol, nested_reference)
+            # Private symbols are not visible from outside of their symbol table
+            if symbol is not None and symbol.get_attr_or_prop(
+                "sym_visibility"
+            ) == StringAttr("private"):
+                return None
+        return symbol
 
     @staticmethod
     def insert_or_update(
